@@ -1,6 +1,8 @@
 package rules
 
 import (
+	"fmt"
+	"os"
 	"strings"
 
 	"elyslint/core"
@@ -33,7 +35,7 @@ func checkBorrowCap(P *core.Program, R *core.Report) {
 	}
 	isBal := func(v ssa.Value) bool {
 		return originsAll(ff, v, func(o core.Origin) bool {
-			if !(o.Kind == "call" && strings.HasSuffix(o.Name, "BankKeeper.GetBalance") && o.Path == ".Amount") {
+			if !(o.Kind == "call" && strings.HasSuffix(o.Name, "BankKeeper.GetBalance") && (o.Path == ".Amount" || o.Path == "")) {
 				return false
 			}
 			call, _ := o.Val.(*ssa.Call)
@@ -47,53 +49,38 @@ func checkBorrowCap(P *core.Program, R *core.Report) {
 		})
 	}
 	isReq := func(v ssa.Value) bool {
-		return originsAll(ff, v, func(o core.Origin) bool { return o.Kind == "param" && o.Name == "amount" && o.Path == ".Amount" })
+		return originsAll(ff, v, func(o core.Origin) bool { return o.Kind == "param" && o.Name == "amount" && (o.Path == ".Amount" || o.Path == "") })
 	}
-	dec := func(v ssa.Value) (ssa.Value, bool) { // x.ToLegacyDec()
-		a, _, ok := mathCall(ff, v, "ToLegacyDec")
-		if !ok || len(a) != 1 {
-			return nil, false
+	// the guard is any must-hold comparison A ≤ B (or A < B) whose difference A − B is, up
+	// to a positive factor, (TotalValue − cash + amount) − 9/10·TotalValue — in whatever
+	// algebraically equal way the two sides are written (polynomial normal form)
+	role := func(_ string, v ssa.Value) (string, bool) {
+		switch {
+		case v == nil:
+			return "", false
+		case isTV(v):
+			return "TV", true
+		case isBal(v):
+			return "BAL", true
+		case isReq(v):
+			return "REQ", true
 		}
-		return a[0], true
+		return "", false
 	}
-	constDec := func(v ssa.Value, want string) bool {
-		a, _, ok := mathCall(ff, v, "LegacyNewDec")
-		if !ok || len(a) != 1 {
-			return false
-		}
-		c, isC := ff.Fwd(a[0]).(*ssa.Const)
-		return isC && c.Value != nil && c.Value.ExactString() == want
-	}
-	// borrowed = ToLegacyDec(Sub(TV, bal)).Add(ToLegacyDec(amount.Amount))
-	isBorrowed := func(v ssa.Value) bool {
-		a, _, ok := mathCall(ff, v, "Add")
-		if !ok || len(a) != 2 {
-			return false
-		}
-		l, ok1 := dec(a[0])
-		r, ok2 := dec(a[1])
-		if !ok1 || !ok2 || !isReq(r) {
-			return false
-		}
-		s, _, ok := mathCall(ff, l, "Sub")
-		return ok && len(s) == 2 && isTV(s[0]) && isBal(s[1])
-	}
-	// maxAllowed = ToLegacyDec(TV).Mul(9).Quo(10)
-	isMax := func(v ssa.Value) bool {
-		q, _, ok := mathCall(ff, v, "Quo")
-		if !ok || len(q) != 2 || !constDec(q[1], "10") {
-			return false
-		}
-		m, _, ok := mathCall(ff, q[0], "Mul")
-		if !ok || len(m) != 2 || !constDec(m[1], "9") {
-			return false
-		}
-		tv, ok := dec(m[0])
-		return ok && isTV(tv)
-	}
+	want := core.ParsePoly("TV - BAL + REQ - 9/10*TV")
 	guarded := func(in ssa.Instruction) bool {
 		for _, a := range ff.At(in) {
-			if a.Rel == core.LE && a.B != nil && isBorrowed(a.A) && isMax(a.B) {
+			if (a.Rel != core.LE && a.Rel != core.LT) || a.B == nil || a.A == nil || a.A == core.ZeroMarker || a.B == core.ZeroMarker || a.B == core.NilMarker {
+				continue
+			}
+			if !core.IsMathType(a.A.Type()) || !core.IsMathType(a.B.Type()) {
+				continue
+			}
+			d, ok := ff.PolyOf(a.A).Sub(ff.PolyOf(a.B)).Rename(role)
+			if os.Getenv("ELYSLINT_POLY_DEBUG") != "" {
+				fmt.Fprintf(os.Stderr, "poly: %s | %s  => %s ok=%v\n", ff.PolyOf(a.A), ff.PolyOf(a.B), d, ok)
+			}
+			if ok && d.ProportionalTo(want) {
 				return true
 			}
 		}
@@ -154,13 +141,20 @@ func checkLiveRate(P *core.Program, R *core.Report) {
 			}
 			args := c.Common().Args
 			amt := args[len(args)-2]
-			if r, _, isR := mathCall(ff, amt, "RoundInt"); isR && len(r) == 1 {
-				if q, _, isQ := mathCall(ff, r[0], "Quo"); isQ && len(q) == 2 && isLive(ff, q[1], true) {
-					if d, _, isD := mathCall(ff, q[0], "ToLegacyDec"); isD && len(d) == 1 {
-						lin := ff.LinOf(d[0])
-						ok = len(lin) == 1 && lin["*msg.Amount"] == 1
+			if inner, isR := roundedArg(ff, amt, "RoundInt"); isR {
+				p, okR := ff.PolyOf(inner).Rename(func(k string, v ssa.Value) (string, bool) {
+					switch {
+					case k == "*msg.Amount":
+						return "DEP", true
+					case v != nil && isLive(ff, v, true):
+						return "RATE", true
 					}
+					return "", false
+				})
+				if os.Getenv("ELYSLINT_POLY_DEBUG") != "" {
+					fmt.Fprintf(os.Stderr, "poly bond: %s => %s ok=%v\n", ff.PolyOf(inner), p, okR)
 				}
+				ok = okR && p.Equal(core.ParsePoly("DEP/RATE"))
 			}
 		}
 		R.Add("C07-live-rate", "x/stablestake/keeper.msgServer.Bond", "shares = RoundInt(deposit / GetRedemptionRate)", P.Pos(fn.Pos()), ok, "shares are issued at the live redemption rate (one when the vault is empty)")
@@ -186,13 +180,20 @@ func checkLiveRate(P *core.Program, R *core.Report) {
 			if !isNC || core.CalleeName(nc.Common()) != "NewCoin" {
 				continue
 			}
-			if r, _, isR := mathCall(ff, nc.Common().Args[1], "RoundInt"); isR && len(r) == 1 {
-				if m, _, isM := mathCall(ff, r[0], "Mul"); isM && len(m) == 2 && isLive(ff, m[1], false) {
-					if d, _, isD := mathCall(ff, m[0], "ToLegacyDec"); isD && len(d) == 1 {
-						lin := ff.LinOf(d[0])
-						ok = len(lin) == 1 && lin["*msg.Amount"] == 1
+			if inner, isR := roundedArg(ff, nc.Common().Args[1], "RoundInt"); isR {
+				p, okR := ff.PolyOf(inner).Rename(func(k string, v ssa.Value) (string, bool) {
+					switch {
+					case k == "*msg.Amount":
+						return "SHARES", true
+					case v != nil && isLive(ff, v, false):
+						return "RATE", true
 					}
+					return "", false
+				})
+				if os.Getenv("ELYSLINT_POLY_DEBUG") != "" {
+					fmt.Fprintf(os.Stderr, "poly unbond: %s => %s ok=%v\n", ff.PolyOf(inner), p, okR)
 				}
+				ok = okR && p.Equal(core.ParsePoly("SHARES*RATE"))
 			}
 		}
 		R.Add("C07-live-rate", "x/stablestake/keeper.msgServer.Unbond", "payout = RoundInt(shares · GetRedemptionRate)", P.Pos(fn.Pos()), ok, "shares are redeemed at the live redemption rate")
@@ -237,4 +238,13 @@ func checkLiveRate(P *core.Program, R *core.Report) {
 	} else {
 		R.Add("C07-live-rate", "x/stablestake/keeper.Keeper.GetRedemptionRate", "function", "-", false, "unresolved anchor")
 	}
+}
+
+// roundedArg: v is x.<op>() for a rounding conversion of cosmossdk.io/math; returns x.
+func roundedArg(ff *core.FuncFacts, v ssa.Value, op string) (ssa.Value, bool) {
+	a, _, ok := mathCall(ff, v, op)
+	if !ok || len(a) != 1 {
+		return nil, false
+	}
+	return a[0], true
 }
